@@ -1319,6 +1319,10 @@ CTX_BLOCKS = {
 }
 
 
+CTX_LIT = {"short": "7", "int": "70000", "long": "3000000000", "string": '"s"', "bool": "true"}
+CTX_LIT_OUT = {"short": "7", "int": "70000", "long": "3000000000", "string": "s", "bool": "1"}
+
+
 def ctx_inst_name(base, args):
     return "%s<%s>" % (base, ", ".join(args))
 
@@ -1382,6 +1386,14 @@ class CtxProgram:
                 r = fresh("r")
                 lines.append("    int %s = %s.%s(%s);" % (r, v, m, ", ".join(["n - 1"] + args)))
                 macts.append("C %s %s" % (enc(v), enc(m)))
+            elif a[0] == "P":
+                # v.put(n - 1, <literal of the receiver's first type argument>, ...): the T-typed parameters of `put` are
+                # resolved from the RECEIVER's instantiation (call_impl.cpp: impl.type_parameter_map of the receiver's struct type)
+                v, targs = a[1], a[2]
+                r = fresh("r")
+                lines.append("    int %s = %s.put(%s);" % (r, v, ", ".join(["n - 1"] + [CTX_LIT[t] for t in targs])))
+                macts.append("O %s" % enc("#" + " ".join(CTX_LIT_OUT[t] for t in targs)))
+                macts.append("C %s %s" % (enc(v), enc("put")))
             elif a[0] == "G":
                 g, targ = a[1], a[2]
                 fd = self.fns[g]
@@ -1411,6 +1423,11 @@ class CtxProgram:
                 sigs.append(sig)
                 texts.append("  %s {\n%s\n  }" % (sig, "\n".join(lines)))
                 mm.append((md["name"], md["sparams"], macts))
+            psig = "int put(%s)" % ", ".join(["int n"] + ["%s x%d" % (p_, i) for i, p_ in enumerate(params)])
+            sigs.append(psig)
+            texts.append("  %s {\n    println(%s);\n    println(sizeof(%s));\n    return n;\n  }" % (
+                psig, ", ".join("x%d" % i for i in range(len(params))), params[0]))
+            mm.append(("put", [], ["O %s" % enc(params[0])]))
             pr.ifaces[iface] = (params, sigs)
             pr.impls.append((iface, base, params, texts))
             mblocks.append((base, params, mm))
@@ -1498,13 +1515,15 @@ def gen_ctx_program(seed, k, shape=None):
     with_fns = shape in ("with-fns", "all")
     if with_fns:
         cp.fns["gobs"] = {"sparams": [], "acts": [], "tt_decl": False}
-        cp.fns["gvia"] = {"sparams": [("c", "Cell<TT>")], "acts": [], "tt_decl": True}
+        cp.fns["gvia"] = {"sparams": [("pgc", "Cell<TT>")], "acts": [], "tt_decl": True}
     # struct parameters (concrete instantiations only: a parameter spelled Cell<T> is a known finding)
+    # parameter names are unique in the whole program: the interpreter evaluates an argument expression after the
+    # callee's earlier parameters are bound, so `o.m(t1, p0)` would read the CALLEE's p0 (not a C11 matter)
     for b in bases:
-        for md in cp.blocks[b]:
+        for mi, md in enumerate(cp.blocks[b]):
             for j in range(rng.choice([0, 1, 1, 2])):
                 ob = rng.choice(bases)
-                md["sparams"].append(("p%d" % j, rng.choice(insts_of(ob, flat))))
+                md["sparams"].append(("p%s%d%d" % (b[0].lower(), mi, j), rng.choice(insts_of(ob, flat))))
 
     def type_forms(params):
         out = []
@@ -1517,8 +1536,8 @@ def gen_ctx_program(seed, k, shape=None):
 
     def body(params, sparams, depth_guard, own_base):
         acts = [("R", 0)]
-        env = [("self", own_base, True)] if own_base else []
-        env += [(pn, pt.split("<")[0], False) for pn, pt in sparams]
+        env = [("self", own_base, None)] if own_base else []
+        env += [(pn, pt.split("<")[0], pt) for pn, pt in sparams]
         lc = [0]
         for _ in range(rng.randint(3, 7)):
             r = rng.random()
@@ -1529,21 +1548,25 @@ def gen_ctx_program(seed, k, shape=None):
                 v = "l%d" % lc[0]
                 ob = rng.choice(bases)
                 ops = CTX_BLOCKS[ob][0]
-                if params and rng.random() < 0.6:
-                    # the local's instantiation depends on the type parameters of this block
-                    args = [rng.choice(params + [rng.choice(uni)]) for _ in ops]
-                    if not any(a in params for a in args):
-                        args[0] = rng.choice(params)
+                if params and own_base in cp.blocks and rng.random() < 0.35:
+                    # a local of the block's own generic spelling (Cell<T> inside impl ... for Cell<T>): its struct type name
+                    # stays "Cell<T>", find_impl_for_struct answers the generic impl itself, nothing is pushed and the callee
+                    # runs under the caller's context - the right one.  Any other spelling over the parameters (Box<T>,
+                    # Duo<B, A>) is known finding C11-impl-local-struct-of-T.
+                    ob, ops, args = own_base, params, list(params)
                 else:
                     args = [rng.choice(uni) for _ in ops]
                 if len(ops) > 1:
                     # a tuple with a nested instance (Duo<Box<long>, int>) is cut at every comma by find_impl_for_struct
                     args = [a if "<" not in a else rng.choice(flat) for a in args]
                 acts.append(("D", v, ctx_inst_name(ob, args)))
-                env.append((v, ob, False))
+                env.append((v, ob, ctx_inst_name(ob, args)))
             elif r < 0.85 and env:
-                v, ob, is_self = rng.choice(env)
-                if ob in cp.blocks:
+                v, ob, vty = rng.choice(env)
+                targs = split_top(vty[vty.index("<") + 1:-1]) if vty else []
+                if ob in cp.blocks and targs and all(t in CTX_LIT for t in targs) and rng.random() < 0.3:
+                    acts.append(("P", v, targs))
+                elif ob in cp.blocks:
                     acts.append(("C", v, ob, rng.choice(cp.blocks[ob])["name"]))
                     if rng.random() < 0.7:
                         acts.append(("O", rng.choice(type_forms(params)), rng.randint(0, 3)))
@@ -1565,7 +1588,7 @@ def gen_ctx_program(seed, k, shape=None):
         # generic functions that call other instantiations of themselves and methods on receivers built from TT
         cp.fns["gobs"]["acts"] = [("R", 0), ("O", "TT", 0), ("G", "gobs", rng.choice(flat)), ("O", "TT", 1),
                                   ("O", "Box<TT>", 0)]
-        cp.fns["gvia"]["acts"] = [("R", 0), ("O", "TT", 0), ("C", "c", "Cell", rng.choice(cp.blocks["Cell"])["name"]), ("O", "TT", 0),
+        cp.fns["gvia"]["acts"] = [("R", 0), ("O", "TT", 0), ("C", "pgc", "Cell", rng.choice(cp.blocks["Cell"])["name"]), ("O", "TT", 0),
                                   ("D", "lc", "Cell<%s>" % rng.choice(flat)), ("C", "lc", "Cell", rng.choice(cp.blocks["Cell"])["name"]),
                                   ("G", "gvia", rng.choice(flat)), ("O", "Cell<TT>", 0)]
     for it in sorted(need_struct):
@@ -1638,6 +1661,81 @@ def known_signature(pr, g, t):
     if fam.startswith("impl") and g[0] == 0 and t[0] == 1 and "Type range error" in t[2]:
         return "C11-impl-locals-int"
     return None
+
+
+def run_ctx_stage(rep, seed, seeds, quick, impl_dir, mbin, hist, proof_broken):
+    """C: generic impl blocks at several instantiations calling each other; model trace vs generic program vs twin."""
+    n = 150 if quick else 2400
+    shapes = ["one-block", "two-blocks", "duo", "with-fns", "all"]
+    cps = []
+    for sd in seeds:
+        for k in range(n // len(seeds)):
+            cps.append(gen_ctx_program(sd, k, shapes[k] if k < len(shapes) else None))
+    prs = [cp.to_program() for cp in cps]
+    mo = batch([mbin], [pr.ctx_request for pr in prs])
+    groups = [[g.split() for g in line.split(" ; ")] for line in mo]
+    names = sorted({dec(x) for gs in groups for g in gs for x in g[2:] if not dec(x).startswith("#")})
+    table = {}
+    # sizes measured from main (no context), in chunks so that one unmeasurable name does not spoil the table
+    chunks = [names[i:i + 40] for i in range(0, len(names), 40)]
+    for ch, r in zip(chunks, common.pmap(lambda ch: common.run_cb(impl_dir, ctx_size_program(ch).twin_text(), timeout=6), chunks)):
+        vals = r[1].split("\n")[:-1]
+        if r[0] == 0 and len(vals) == len(ch):
+            table.update(dict(zip(ch, vals)))
+    results = common.pmap(lambda pr: run_pair(impl_dir, pr, timeout=10), prs)
+    out = {"violations_with_input": 0, "programs": len(prs), "distinct": 0}
+    twin_bad, model_bad, calls, nested_calls, cross_obs = [], [], 0, 0, 0
+    distinct = set()
+    for cp, pr, gs, (g, t) in zip(cps, prs, groups, results):
+        fam = pr.meta["family"]
+        hist["prog-" + fam] = hist.get("prog-" + fam, 0) + 1
+        calls += len(gs)
+        cross_obs += sum(len(x) - 2 for x in gs)
+        pred_ok = all(x[0] in ("N", "R") and x[1] == "0" for x in gs) and all(dec(y) in table or dec(y).startswith("#") for x in gs for y in x[2:])
+        pred = "".join("".join((dec(y)[1:] if dec(y).startswith("#") else table.get(dec(y), "?")) + "\n" for y in x[2:]) + "--\n" for x in gs)
+        if t[0] == 0 and t[1].strip():
+            distinct.add(t[1])
+        if not verdict(g, t):
+            twin_bad.append((cp, pr, g, t))
+        elif not pred_ok or g[1] != pred:
+            model_bad.append((cp, pr, g, pred, gs))
+    out["distinct"] = len(distinct)
+
+    def shrink_ctx(pr):
+        decls = [l for l in pr.main.split("\n") if re.match(r"\s*(Cell|Box|Duo)<", l)]
+
+        def bad(p):
+            if not all(d in p.main for d in decls):
+                return False
+            g, t = run_pair(impl_dir, p, timeout=10)
+            return t[0] == 0 and not verdict(g, t)
+        return shrink_program(pr, bad, budget=300)
+    twin_bad.sort(key=lambda f: len(f[1].generic_text()))
+    for cp, pr, g, t in twin_bad[:3]:
+        small = shrink_ctx(pr) if t[0] == 0 else pr
+        g2, t2 = run_pair(impl_dir, small, timeout=10)
+        out["violations_with_input"] += 1
+        rep.violation("twin-ctx", {"generic_program": small.generic_text(), "twin_program": small.twin_text(),
+                                   "generic": {"rc": g2[0], "stdout": g2[1][-1500:], "stderr": g2[2][-500:]},
+                                   "twin": {"rc": t2[0], "stdout": t2[1][-1500:], "stderr": t2[2][-500:]},
+                                   "family": pr.meta["family"], "universe": pr.meta.get("universe"), "broken_theorem": proof_broken,
+                                   "law": "impl_context_stack_discipline: every method body runs under the type context of the instance of its "
+                                          "receiver, whoever calls it"},
+                      "generic impl blocks: a method called across instantiations behaves unlike its hand-specialised copy (%s): generic rc=%d %r, "
+                      "twin rc=%d %r" % (pr.meta["family"], g2[0], g2[1][-60:], t2[0], t2[1][-60:]))
+    for cp, pr, g, pred, gs in model_bad[:2]:
+        gl, pl = g[1].split("\n"), pred.split("\n")
+        first = next((i for i in range(max(len(gl), len(pl))) if (gl[i] if i < len(gl) else None) != (pl[i] if i < len(pl) else None)), -1)
+        rep.violation("corr-ctx", {"request": pr.ctx_request, "program": pr.generic_text(), "model_flags": [x[:2] for x in gs],
+                                   "first_difference_line": first,
+                                   "impl_line": gl[first] if 0 <= first < len(gl) else None, "model_line": pl[first] if 0 <= first < len(pl) else None,
+                                   "broken": "correspondence Context.run = the type-context stack of the interpreter (carrier of impl_context_stack_discipline)"},
+                      "the interpreter and the proved model of the type-context stack disagree on a generated impl-block program (its twin agrees "
+                      "with the interpreter)", no_failing_input=True)
+    out["coverage"] = {"programs": len(prs), "calls_from_main": calls, "observations": cross_obs, "size_table": len(table),
+                       "resolved_names": len(names), "twin_disagreements": len(twin_bad), "model_disagreements": len(model_bad),
+                       "sample_request": prs[0].ctx_request[:400], "sample_model": mo[0][:200]}
+    return out
 
 
 def run(rep):
@@ -1713,8 +1811,11 @@ def _run_body(rep, seed, tier, quick, lap, cq, proof_broken, new_missing, pinned
     seeds = [seed] if quick else [seed, seed * 1000 + 1, seed * 1000 + 2]
     for sd in seeds:
         reqs += tree_requests(sd, n_tree // len(seeds), tier)
+    for sd in seeds:
+        reqs += resolve_requests(sd, (1500 if quick else 15000) // len(seeds), 0)
     n_scope0 = len(reqs)
     reqs += name_scope_requests(scope)
+    reqs += resolve_requests(seed, 0, scope)
     lines = [r for _, r in reqs]
     mo = batch([mbin], lines)
     io = batch([leaf], lines)
@@ -1725,6 +1826,9 @@ def _run_body(rep, seed, tier, quick, lap, cq, proof_broken, new_missing, pinned
         hist["tree-" + kind] = hist.get("tree-" + kind, 0) + 1
         if not compare_lines(kind, r, m, i, defaults):
             bad_tree.append((kind, r, m, i))
+        elif kind == "resolve":
+            if m.startswith("R ") and m[2:] != r.split()[-1]:
+                nontrivial.add(r)
         elif m.startswith(("T ", "K ")):
             # non-trivial: the answer differs from the input tree (something was dropped or rewritten)
             if kind == "key" or m[2:].split() != r[r.index("( "):].split():
@@ -1752,7 +1856,8 @@ def _run_body(rep, seed, tier, quick, lap, cq, proof_broken, new_missing, pinned
         rep.violation("corr-tree", {"request": small, "model": m2, "impl": i2, "origin": kind,
                                     "broken": "correspondence Model.{instantiate,clone,subst_node,generate_cache_key} = generic_instantiation.cpp "
                                               "(carrier of every C11 theorem)"},
-                      "generic_instantiation.cpp and the proved model disagree on a %s request (%d tokens)%s" % (
+                      ("TypeContext::resolve_complex_type (ast.h) and the proved model disagree on a %s request (%d tokens)%s" if kind == "resolve" else
+                       "generic_instantiation.cpp and the proved model disagree on a %s request (%d tokens)%s") % (
                           kind, len(small.split()),
                           ("; " + key_collision + " (instances would be shared if the cache in call_impl.cpp were switched on; it is off, "
                            "so no program shows it)") if kind == "key" and key_collision else ""),
@@ -1792,8 +1897,10 @@ def _run_body(rep, seed, tier, quick, lap, cq, proof_broken, new_missing, pinned
                     rep.violation("corpus", {"id": c.get("id"), "generic_program": c["generic"], "twin_program": c["twin"],
                                              "generic": {"rc": g[0], "stdout": g[1][-800:], "stderr": g[2][-300:]},
                                              "twin": {"rc": t[0], "stdout": t[1][-800:]}, "fixed_by": c.get("fixed_by")},
-                                  "repaired finding %s is back: generic rc=%d %r, twin rc=%d %r" % (
-                                      c.get("id"), g[0], (g[1] or g[2])[-80:], t[0], t[1][-80:]))
+                                  "%s %s: generic rc=%d %r, twin rc=%d %r" % (
+                                      "repaired finding" if c.get("fixed_by") else "corpus program", c.get("id") +
+                                      (" is back" if c.get("fixed_by") else " differs from its hand-specialised twin (%s)" % c.get("note", "")),
+                                      g[0], (g[1] or g[2])[-80:], t[0], t[1][-80:]))
     # A1 + classification on the parser's ASTs of every generic function instance
     tmpd = tempfile.mkdtemp(prefix="cbverif-c11-", dir=common.SCRATCH_ROOT)
     real_inst = real_bad = 0
@@ -1905,6 +2012,11 @@ def _run_body(rep, seed, tier, quick, lap, cq, proof_broken, new_missing, pinned
                           proof_broken, (" (clone_ast_node newly fails to copy %s)" % new_missing) if new_missing else ""),
                       no_failing_input=(violations_with_input == 0))
 
+    # ---- (4c) C: the run-time type context of generic impl blocks (cross-instantiation calls)
+    ctx = run_ctx_stage(rep, seed, seeds, quick, impl_dir, mbin, hist, proof_broken)
+    violations_with_input += ctx["violations_with_input"]
+    lap("C type-context programs")
+
     # ---- (5) known findings: replay each stored input
     for f in common.known_findings(PROP):
         r = f["replay"]
@@ -1927,13 +2039,17 @@ def _run_body(rep, seed, tier, quick, lap, cq, proof_broken, new_missing, pinned
         lap("coqchk")
     hist.update({"prog-" + k: v for k, v in fam_hist.items()})
     rep.coverage.update({
-        "evaluations": len(reqs) + real_inst + 2 * len(demanded) + 2 * len(sample),
-        "distinct_nontrivial": len(nontrivial) + len(distinct),
+        "evaluations": len(reqs) + real_inst + 2 * len(demanded) + 2 * len(sample) + 3 * ctx["programs"],
+        "distinct_nontrivial": len(nontrivial) + len(distinct) + ctx["distinct"],
         "rule": "A: extracted Coq model vs the repository's generic_instantiation.cpp (+RecursiveParser) on the same requests: "
                 "instantiate/clone/substitute/cache-key on random trees, on every string over {T < > , space _ a} up to length %d as a type "
                 "name, and on the parser's AST of every generated generic function instance; non-trivial = the answer differs from the input "
                 "tree. B: generic program vs its mechanically monomorphised twin on main (exit status + stdout equal), demanded for every "
-                "program whose generic functions use no recorded-missing member; distinct = distinct twin outputs" % scope,
+                "program whose generic functions use no recorded-missing member; distinct = distinct twin outputs. C: call skeletons over "
+                "generic impl blocks (methods of one instantiation calling methods on receivers of other instantiations of the same block, of "
+                "other blocks, through generic functions, nested, with early returns): the extracted Context.run trace (resolved type names, "
+                "mapped through a size table measured from main) vs the generic program vs its twin, all three equal; TypeContext::"
+                "resolve_complex_type of ast.h vs the model on random names and on every string over {T < > , space * [ a} up to length %d" % (scope, scope),
         "exhaustive": True,
         "exhaustive_space": "type-name strings over a 7-letter alphabet up to length %d (%d), as type_name and sizeof_type_name; "
                             "every statement kind x {generic fn, generic impl}; %s ordered type pairs" % (
@@ -1944,6 +2060,7 @@ def _run_body(rep, seed, tier, quick, lap, cq, proof_broken, new_missing, pinned
         "kind_coverage": kind_bucket,
         "real_ast_instantiations": real_inst, "real_ast_disagreements": real_bad,
         "twin_disagreements": len(failures), "known_signature_hits": known_main,
+        "type_context": ctx["coverage"],
         "samples": tree_samples + [{"generic": demanded[0].generic_text()[-600:], "twin_stdout": results[0][1][1][-200:]}],
     })
     rep.assumptions += [
